@@ -11,6 +11,9 @@ fn value(kind: &str, payload: &str) -> Value {
             Value::Char(Some(s.chars().next().unwrap()))
         }
         "y" => Value::Bytes(Some(Box::new(unhex(payload)))),
+        // v: payload = <hex of value term>:<hex of model encoding> (Json arm, array elements); fa only
+        #[cfg(feature = "fa")]
+        "v" => crate::valueterm::parse_value(&unhexs(payload.split(':').next().unwrap())),
         _ => panic!("kind"),
     }
 }
